@@ -10,6 +10,7 @@ C03 -- emitted Verilog is self-consistent: it parses, resolves and elaborates.
     interface, and their separately generated bodies are proved equivalent by the solver.
 """
 import itertools
+import io
 import sys
 import zlib
 
@@ -221,6 +222,68 @@ def pathname_task(p, cfg, rec):
 
 
 # ---------------------------------------------------------------------------------------------------
+def regen_task(p, cfg, rec):
+    """a circuit that is EDITED between two generation requests (interactive use: generate, look at the text, expose an internal
+    net / add a stage, generate again): every returned text must be closed and legal for the circuit as it is at that moment"""
+    edit, entry, reuse, w = cfg['edit'], cfg['entry'], cfg['reuse'], cfg['w']
+    with quiet():
+        s = py4hw.HWSystem()
+        a, b_, r = s.wire('a', w), s.wire('b', w), s.wire('r', w)
+        holder = {}
+
+        def body(b):
+            t = b.wire('t', w)
+            holder['t'] = t
+            And2(b, 'and', a, b_, t)
+            Not(b, 'not', t, r)
+        box = D.Box(s, 'blk', {'a': a, 'b': b_}, {'r': r}, body)
+    gens = {}
+
+    def request():
+        out = io.StringIO()
+        old = sys.stdout
+        sys.stdout = out
+        try:
+            g = gens.setdefault('g', py4hw.VerilogGenerator(box)) if reuse else py4hw.VerilogGenerator(box)
+            return (g.getVerilog(box) if entry == 'module' else g.getVerilogForHierarchy()), None
+        except Exception as e:
+            return None, e
+        finally:
+            sys.stdout = old
+    t1, exc = request()
+    if t1 is None:
+        p.res['refused'] += 1
+        p.note('%s: generator refused the first request: %r' % (p.config, exc))
+        return
+    p.res['programs'] += 1
+    elaborate_text(p, t1, label='first request: ')
+    with quiet():
+        if edit == 'expose-internal-net':
+            box.addOut('dbg', holder['t'])
+        elif edit == 'add-input-and-stage':
+            c = s.wire('c', w)
+            box.addIn('c', c)
+            u = box.wire('u', w)
+            Or2(box, 'or', holder['t'], c, u)
+            box.addOut('u', u)
+        elif edit == 'add-internal-stage':
+            u = box.wire('u', w)
+            Buf(box, 'cp', holder['t'], u)
+            box.addOut('u', u)
+        elif edit == 'expose-then-stage':
+            box.addOut('dbg', holder['t'])
+            u = box.wire('u', w)
+            Not(box, 'n2', holder['t'], u)
+            box.addOut('u', u)
+    t2, exc = request()
+    if t2 is None:
+        p.res['refused'] += 1
+        p.note('%s: generator refused the request after the edit: %r' % (p.config, exc))
+        return
+    p.res['programs'] += 1
+    elaborate_text(p, t2, label='request after the edit: ')
+
+
 def dangling_task(p, cfg, rec):
     """designs under construction: nets that no leaf drives and/or no leaf reads, hooked to ports of structural children only.
     The circuit is incomplete (that is the user's business, so 'has a driver' is not demanded for the nets the circuit itself
@@ -442,6 +505,11 @@ def tasks_for(tier, seed):
     for shape in ('out-unconnected-inside', 'undriven-to-unread', 'driven-to-unread', 'undriven-to-read', 'driven-unconnected-outside', 'two-levels'):
         for w in (1, 8):
             t.append(('circuit under construction: %s, width %d' % (shape, w), dangling_task, {'shape': shape, 'w': w}))
+    for edit in ('expose-internal-net', 'add-input-and-stage', 'add-internal-stage', 'expose-then-stage'):
+        for entry in ('module', 'hierarchy'):
+            for reuse in (False, True):
+                t.append(('circuit edited between two requests: %s, %s request, %s generator' % (edit, entry, 'same' if reuse else 'fresh'), regen_task,
+                          {'edit': edit, 'entry': entry, 'reuse': reuse, 'w': 4}))
     for depth in (0, 1, 2):
         for value in (3, 200):
             t.append(('module parameter %d handed down through %d structural levels' % (value, depth), param_task, {'depth': depth, 'value': value}))
